@@ -47,6 +47,7 @@ class Check(HCheck):
         return [
             Space(Cfg("domain"), ops, d, roots=[al.R0, al.R4], name="plinks/domain"),
             Space(Cfg("subdomain", {A: "path1"}), ops, d - 1, roots=[al.R2], name="plinks/subdomain+path1"),
+            Space(Cfg("never"), [al.links((Bb + b"p:w11|p:a|", Bb + b"p:w10|p:b|")), al.page(Bb + b"p:w10|p:c|")], 1, roots=[al.many_prefix_root(12)], name="plinks/12-prefixes"),
             # every route that changes the prefix map, between two paginations
             Space(Cfg("domain"), al.prefix_edit_ops() + [al.OBS, al.links((Axy, Ax), (Ax, Axy)), al.rule(A, "path1")], 3 if thorough else 2, roots=[al.R2, al.R4], name="plinks/edits"),
         ]
